@@ -23,16 +23,35 @@ from harness.vlib import coq_bool, coq_list, coq_str, coq_z
 PRELUDE = '''\
 import dataclasses
 from dataclasses import field, InitVar, KW_ONLY
-from typing import Annotated, Any, ClassVar, Final, List, Optional, Union
+from datetime import timedelta
+from decimal import Decimal
+from enum import IntEnum
+from typing import Annotated, Any, ClassVar, Final, List, NewType, Optional, Tuple, TypeVar, Union
 from mashumaro import DataClassDictMixin, field_options, pass_through
 from mashumaro.config import BaseConfig
 from mashumaro.types import Alias
 
+class Color(IntEnum):
+    ZERO = 0
+    ONE = 1
+    TWO = 2
 type OptInt = int | None
 type OptFloat = float | None
 type OptStr = None | str
 type OptBool = bool | None
 type OptInts = List[int] | None
+type OptDecimal = Decimal | None
+type OptTimedelta = None | timedelta
+type OptTuple = Tuple[int, ...] | None
+type OptColor = Color | None
+NtOptInt = NewType("NtOptInt", Optional[int])
+NtOptFloat = NewType("NtOptFloat", Optional[float])
+NtOptDecimal = NewType("NtOptDecimal", Optional[Decimal])
+NtOptColor = NewType("NtOptColor", Optional[Color])
+TvOptInt = TypeVar("TvOptInt", bound=Optional[int])
+TvOptStr = TypeVar("TvOptStr", bound=Optional[str])
+TvOptTimedelta = TypeVar("TvOptTimedelta", bound=Optional[timedelta])
+TvOptTuple = TypeVar("TvOptTuple", bound=Optional[Tuple[int, ...]])
 
 _PRE = {}
 _ALLOC = [0]
@@ -62,25 +81,60 @@ def _ints(v):
     return [int(x) for x in v]
 
 
+def _td(v):
+    import datetime
+    return datetime.timedelta(seconds=v)
+
+
+def _tup(v):
+    return tuple([int(x) for x in v])
+
+
+def _dec(v):
+    import decimal
+    return decimal.Decimal(v)
+
+
+def _color(v):
+    return ("Color", v)          # resolved against the program's own Color class in pyconv
+
+
 _CONV = {"int": ("CInt", int), "float": ("CFloat", float), "str": ("CStr", str), "bool": ("CBool", bool),
-         "List[int]": ("CList", _ints)}
-_PEP695 = {"int": "OptInt", "float": "OptFloat", "str": "OptStr", "bool": "OptBool", "List[int]": "OptInts"}
+         "List[int]": ("CList", _ints), "Decimal": ("CDec", _dec), "timedelta": ("CTd", _td),
+         "Tuple[int, ...]": ("CTup", _tup), "Color": ("CEnum", _color)}
+_PEP695 = {"int": "OptInt", "float": "OptFloat", "str": "OptStr", "bool": "OptBool", "List[int]": "OptInts",
+           "Decimal": "OptDecimal", "timedelta": "OptTimedelta", "Tuple[int, ...]": "OptTuple", "Color": "OptColor"}
+_NEWTYPE = {"int": "NtOptInt", "float": "NtOptFloat", "Decimal": "NtOptDecimal", "Color": "NtOptColor"}
+_TYPEVAR = {"int": "TvOptInt", "str": "TvOptStr", "timedelta": "TvOptTimedelta", "Tuple[int, ...]": "TvOptTuple"}
 # spelling -> (conversion kind in Coq, python conversion, nullable AS THE FIELD BLOCK SEES IT, identity unpacker,
 #              nullable behind a wrapper: the unpacker expression itself maps None to None)
 TYPES = {"Any": ("CId", None, True, True, False)}
 BASE = {"Any": "Any"}
 SPELLING_CLASS = {"Any": "any"}
 for _b, (_k, _f) in _CONV.items():
-    for _sp, _cls in [(_b, "plain"),
-                      ("Optional[%s]" % _b, "optional"), ("%s | None" % _b, "optional"),
-                      ("None | %s" % _b, "none-first"), ("Union[None, %s]" % _b, "none-first"),
-                      ('Annotated[Optional[%s], "meta"]' % _b, "wrapped"), ('Annotated[None | %s, "meta"]' % _b, "wrapped"),
-                      ("Final[Optional[%s]]" % _b, "wrapped"), (_PEP695[_b], "wrapped")]:
+    _sps = [(_b, "plain"),
+            ("Optional[%s]" % _b, "optional"), ("%s | None" % _b, "optional"),
+            ("None | %s" % _b, "none-first"), ("Union[None, %s]" % _b, "none-first"),
+            ('Annotated[Optional[%s], "meta"]' % _b, "wrapped"), ('Annotated[None | %s, "meta"]' % _b, "wrapped"),
+            ("Final[Optional[%s]]" % _b, "wrapped"), (_PEP695[_b], "wrapped")]
+    if _b in _NEWTYPE:
+        _sps.append((_NEWTYPE[_b], "wrapped"))
+    if _b in _TYPEVAR:
+        _sps.append((_TYPEVAR[_b], "wrapped"))
+    for _sp, _cls in _sps:
         TYPES[_sp] = (_k, _f, _cls in ("optional", "none-first"), False, _cls == "wrapped")
         BASE[_sp] = _b
         SPELLING_CLASS[_sp] = _cls
 PASSABLE = ("int", "Optional[int]", "Optional[float]", "None | int")     # also generated with deserialize=pass_through
-LISTS = tuple(t for t in TYPES if BASE[t] == "List[int]")
+LISTS = tuple(t for t in TYPES if BASE[t] == "List[int]")      # defaults only through a factory (or None)
+
+
+class Src(str):
+    """a default value given by its python source text (objects of classes the program text defines or imports)"""
+
+
+def py_src(v):
+    return str(v) if isinstance(v, Src) else repr(v)
 
 
 def base_of(tname):
@@ -111,6 +165,17 @@ def typed_value(rng, base, cat):
         return cat != "falsy"
     if base == "List[int]":
         return [] if cat == "falsy" else [rng.randrange(0, 9) for _ in range(rng.randrange(1, 3))]
+    if base == "Decimal":
+        return Src({"falsy": rng.choice(["Decimal(0)", "Decimal('0.0')"]),
+                    "truthy": rng.choice(["Decimal('1.5')", "Decimal(3)", "Decimal('-2')"]),
+                    "big": "Decimal('1000000.25')"}[cat])
+    if base == "timedelta":
+        return Src({"falsy": "timedelta(0)", "truthy": "timedelta(seconds=%d)" % rng.randrange(1, 90),
+                    "big": "timedelta(days=12)"}[cat])
+    if base == "Tuple[int, ...]":
+        return Src({"falsy": "()", "truthy": rng.choice(["(1, 2)", "(0,)"]), "big": "(1000, 257, 3)"}[cat])
+    if base == "Color":
+        return Src({"falsy": "Color.ZERO", "truthy": rng.choice(["Color.ONE", "Color.TWO"]), "big": "Color.TWO"}[cat])
     raise KeyError(base)
 
 
@@ -152,6 +217,8 @@ def sample_input_value(rng, m):
         if base == "bool":
             alts += [int(dv)]
         return rng.choice(alts)
+    if not m["ident"] and rng.random() < ILL_TYPED_P:
+        return ill_typed(rng, base, nullable or m["def"] == ("val", None))
     cat = rng.choice(["falsy", "truthy", "truthy", "big"])
     if m["ident"]:
         return typed_value(rng, "Any", cat)
@@ -160,15 +227,38 @@ def sample_input_value(rng, m):
         return bool(v) if v in (0, 1) and rng.random() < 0.2 else v
     if base == "bool":
         return rng.choice([cat != "falsy", int(cat != "falsy")])
+    if base == "str":
+        if rng.random() < 0.15:      # str(value) accepts anything
+            return rng.choice([rng.randrange(-3, 50), float(rng.randrange(0, 9)), True, False, [1, 2], []])
+        return typed_value(rng, "str", cat)
+    if base == "Decimal":
+        return rng.choice([{"falsy": "0", "truthy": "1.5", "big": "1000000.25"}[cat], "-2", "0.0",
+                           typed_value(rng, "int", cat), typed_value(rng, "float", cat)])
+    if base == "timedelta":
+        v = typed_value(rng, rng.choice(["int", "float"]), cat)
+        return abs(v) if rng.random() < 0.8 else v
+    if base == "Tuple[int, ...]":
+        return typed_value(rng, "List[int]", cat)
+    if base == "Color":
+        return rng.choice([0, 1, 2, 1.0, 2.0, True, False] if cat != "falsy" else [0, 0.0, False])
     return typed_value(rng, base, cat)
 
 
-def nonnull_input(rng, m):
-    for _ in range(50):
-        v = sample_input_value(rng, m)
-        if v is not None:
-            return v
-    return 1
+ILL_TYPED_P = 0.05
+
+
+def ill_typed(rng, base, nullable):
+    """a value the field's conversion rejects (or, for str/bool, coerces): the generated code must answer with
+    InvalidFieldValue for that field - never with a default or a silently wrong value.  Strings never parse as
+    numbers (they contain a letter or are empty)."""
+    pool = ["abc", "", "x9", [1]] + ([] if nullable else [None, None])
+    if base in ("List[int]", "Tuple[int, ...]"):
+        pool += [5, True, "s1"]
+    if base == "Color":
+        pool += [7, -1, "ONE", 3.0]
+    if base == "Decimal":
+        pool += ["1,5", "1.5x"]
+    return rng.choice(pool)
 
 
 def pick_type(rng):
@@ -178,17 +268,13 @@ def pick_type(rng):
     return rng.choice([t for t in TYPES if SPELLING_CLASS[t] == cls])
 
 
-def pep695_probe():
-    """known finding C07/pep695-alias-name-unbound, reproduced in every run (oracle only: the Coq model does not
-    contain this defect, so the program takes no part in the correspondence)"""
-    return {"mixin": True, "lazy": False, "plain_base": None, "nba": False, "aliases": {}, "oracle_only": True,
-            "classes": [{"name": "C0", "kw_only": False, "slots": False,
-                         "members": [{"name": "a", "kind": "normal", "type": "OptInt", "rhs": None}]}]}
+ALIAS_MECHS = ["field_options", "annotated", "config"]       # documented precedence, strongest first
 
 
 def add_aliases(rng, prog, force=False):
     """alias dimension: up to two normal members get an alias through field_options, Annotated[.., Alias] or
-    Config.aliases; Config.allow_deserialization_not_by_alias on or off"""
+    Config.aliases - sometimes through two or all three at once with different keys, so that the precedence
+    matters; Config.allow_deserialization_not_by_alias on or off"""
     prog["nba"] = rng.random() < 0.5
     prog["aliases"] = {}
     normal = []
@@ -201,14 +287,30 @@ def add_aliases(rng, prog, force=False):
                 normal.append(m["name"])
     if not normal or not (force or rng.random() < 0.4):
         return
+    used = []
     for name in rng.sample(normal, min(len(normal), rng.choice([1, 2]))):
-        key = "al_" + name
-        others = [n for n in allnames if n != name and n != "_" and n not in normal]   # ClassVar / InitVar names
-        if others and rng.random() < 0.1:
-            key = rng.choice(others)            # the alias is the name of another member
-        if key in [k for _, k in prog["aliases"].values()]:
-            continue
-        prog["aliases"][name] = (rng.choice(["field_options", "annotated", "config"]), key)
+        mechs = rng.sample(ALIAS_MECHS, rng.choice([1, 1, 2, 3]))
+        srcs = []
+        for mech in mechs:
+            key = "%s_%s" % ({"field_options": "fo", "annotated": "an", "config": "cf"}[mech], name)
+            others = [n for n in allnames if n != name and n != "_" and n not in normal]   # ClassVar / InitVar names
+            if others and rng.random() < 0.1:
+                key = rng.choice(others)            # the alias is the name of another (non-init) member
+            if key in used:
+                continue
+            used.append(key)
+            srcs.append((mech, key))
+        if srcs:
+            prog["aliases"][name] = srcs
+
+
+def expected_alias(srcs):
+    """the alias that counts when several sources name one: field_options, then Annotated Alias, then Config.aliases"""
+    for mech in ALIAS_MECHS:
+        for mm, key in srcs or []:
+            if mm == mech:
+                return key
+    return None
 
 
 def gen_program(rng, nmax):
@@ -257,13 +359,8 @@ def gen_program(rng, nmax):
                 tname = pick_type(rng)
                 m = {"name": name, "kind": "normal", "type": tname, "rhs": None}
                 want_default = mi >= cut or rng.random() < 0.15
-                if tname in _PEP695.values():
-                    # a field typed by a PEP 695 alias always gets a default here: without one an absent key hits the
-                    # known finding C07/pep695-alias-name-unbound (NameError instead of MissingField), which is
-                    # probed separately in every run (pep695_probe)
-                    want_default = True
                 if override and base.get("kind") == "normal" and base.get("rhs") and base["rhs"][0] == "plain" \
-                        and tname not in _PEP695.values() and rng.random() < 0.25:
+                        and rng.random() < 0.25:
                     # re-annotation without a value of a member whose base has a class-level default
                     cls["members"].append(m)
                     continue
@@ -347,8 +444,7 @@ def spectrum_programs(rng):
         # aliases go to semantically nullable fields first: that is where a null under the alias key matters
         nullable_names = [m["name"] for m in members if type_nullable(m["type"])]
         if nullable_names and not any(n in nullable_names for n in prog["aliases"]):
-            prog["aliases"][rng.choice(nullable_names)] = (
-                rng.choice(["field_options", "annotated", "config"]), "al_x")
+            prog["aliases"][rng.choice(nullable_names)] = [(rng.choice(ALIAS_MECHS), "al_x")]
         progs.append(prog)
     return progs
 
@@ -367,12 +463,12 @@ def render_member(m, aliases=None):
         return "    %s: ClassVar[Any]" % m["name"]
     rhs = m["rhs"]
     tname = m["type"]
-    mech = (aliases or {}).get(m["name"])
-    if mech and mech[0] == "annotated":
-        tname = "Annotated[%s, Alias(%r)]" % (tname, mech[1])
+    srcs = dict((aliases or {}).get(m["name"]) or [])
+    if "annotated" in srcs:
+        tname = "Annotated[%s, Alias(%r)]" % (tname, srcs["annotated"])
     opts = {}
-    if mech and mech[0] == "field_options":
-        opts["alias"] = mech[1]
+    if "field_options" in srcs:
+        opts["alias"] = srcs["field_options"]
         if rhs is None:
             rhs = ("field", {"default": MISSING, "factory": None, "init": True, "kw_only": None, "pass": False})
         elif rhs[0] == "plain":
@@ -380,11 +476,11 @@ def render_member(m, aliases=None):
     if rhs is None:
         return "    %s: %s" % (m["name"], tname)
     if rhs[0] == "plain":
-        return "    %s: %s = %r" % (m["name"], tname, rhs[1])
+        return "    %s: %s = %s" % (m["name"], tname, py_src(rhs[1]))
     fd = rhs[1]
     args = []
     if fd["default"] is not MISSING:
-        args.append("default=%r" % (fd["default"],))
+        args.append("default=%s" % py_src(fd["default"]))
     if fd["factory"]:
         args.append("default_factory=%s" % fd["factory"])
     if not fd["init"]:
@@ -432,7 +528,7 @@ def render(prog, with_mashumaro=True):
             cfg.append("        lazy_compilation = True")
         if prog.get("nba"):
             cfg.append("        allow_deserialization_not_by_alias = True")
-        cal = {n: k for n, (mech, k) in prog.get("aliases", {}).items() if mech == "config"}
+        cal = {n: k for n, srcs in prog.get("aliases", {}).items() for mech, k in srcs if mech == "config"}
         if cal:
             cfg.append("        aliases = %r" % cal)
         if prev is None and cfg:
@@ -527,13 +623,7 @@ def analyse(mod, spec_types, timing, aliases=None, nba=False):
             else:
                 m["def"] = ("val", v)
         # facts read by the builder
-        anc = None
-        for a in cls.__mro__[-1:0:-1]:
-            if dataclasses.is_dataclass(a):
-                af = getattr(a, "__dataclass_fields__").get(name)
-                if af is not None:
-                    anc = bfield_of(af)
-        m["anc"] = anc
+        # (the ancestor Field of that name is chosen in Coq from the ancestors' field tables: BindCases.anc_of)
         m["own"] = name in own_ann
         if timing == "pre":
             s = pre.get(name)
@@ -554,9 +644,16 @@ def analyse(mod, spec_types, timing, aliases=None, nba=False):
             odf = cls.__dict__.get("__dataclass_fields__", {}).get(name)
             m["df"] = bfield_of(odf) if odf is not None else None
         st = spec_types.get(name)
-        mech = (aliases or {}).get(name)
-        m["alias"] = mech[1] if (mech and kind == "normal") else None
+        srcs = (aliases or {}).get(name) if kind == "normal" else None
+        mech = ("annotated", None) if srcs and "annotated" in dict(srcs) else None
+        m["alias"] = expected_alias(srcs)
         m["nba"] = bool(nba)
+        # the three places the builder looks an alias up in, as they are on the real class (resolved in Coq by K4)
+        ann = [a.name for a in getattr(t, "__metadata__", ()) if type(a).__name__ == "Alias"]
+        cfg = getattr(getattr(cls, "Config", None), "aliases", None) or {}
+        m["asrc"] = (f.metadata.get("alias") if (f is not None and kind == "normal") else None,
+                     ann if kind == "normal" else [], typing.get_origin(t) is typing.Annotated,
+                     cfg.get(name) if kind == "normal" else None)
         if kind == "normal" and st is not None:
             tname, passthrough = st
             m["type"] = tname
@@ -585,6 +682,10 @@ def analyse(mod, spec_types, timing, aliases=None, nba=False):
             kind == "normal" and m["own"] and name not in pre and m["def"][0] == "val")
         m["from_plain_base"] = kind == "normal" and not is_field
         members.append(m)
+    anc_tables = [[(n, bfield_of(af)) for n, af in getattr(a, "__dataclass_fields__").items() if n in hints]
+                  for a in cls.__mro__[-1:0:-1] if dataclasses.is_dataclass(a)]
+    for m in members:
+        m["anc_tables"] = anc_tables
     sigpos = [n for n, p in sig.parameters.items()
               if n != "self" and p.kind is inspect.Parameter.POSITIONAL_OR_KEYWORD]
     sigkw = [n for n, p in sig.parameters.items() if p.kind is inspect.Parameter.KEYWORD_ONLY]
@@ -649,12 +750,14 @@ def is_factory_made(m, v, d):
 
 def run_real(fn, d, members):
     """('missing', f) | ('typeerror', msg) | ('other', msg) | ('ok', r1, r2)"""
-    from mashumaro.exceptions import MissingField
+    from mashumaro.exceptions import InvalidFieldValue, MissingField
     try:
         r1 = fn(dict(d))
         r2 = fn(dict(d))
     except MissingField as e:
         return ("missing", e.field_name)
+    except InvalidFieldValue as e:
+        return ("invalid", e.field_name)
     except TypeError as e:
         return ("typeerror", str(e))
     except Exception as e:  # noqa: BLE001 - every other class is reported as such
@@ -671,6 +774,16 @@ def to_pv(v):
         return "PNone"
     if isinstance(v, bool):
         return "PBool %s" % coq_bool(v)
+    if type(v).__name__ == "Color" and isinstance(v, int):
+        return "PEnum %s" % coq_z(int(v))
+    if type(v).__name__ == "Decimal":
+        return "PDec %s" % coq_str(str(v))
+    if type(v).__name__ == "timedelta":
+        if v.microseconds or v.total_seconds() != int(v.total_seconds()):
+            raise OutOfDomain(repr(v))
+        return "PTd %s" % coq_z(int(v.total_seconds()))
+    if isinstance(v, tuple) and all(isinstance(x, int) and not isinstance(x, bool) for x in v):
+        return "PTup [%s]" % "; ".join(coq_z(x) for x in v)
     if isinstance(v, int):
         return "PInt %s" % coq_z(v)
     if isinstance(v, float):
@@ -760,18 +873,25 @@ KIND = {"normal": "KNormal", "initvar": "KInitVar", "classvar": "KClassVar", "se
 
 
 def coq_member(m):
-    return "mkm %s %s %s %s %s %s %s %s %s %s %s %s %s %s" % (
+    return "mkm %s %s %s %s %s %s %s %s %s %s %s %s" % (
         coq_str(m["name"]), KIND[m["kind"]], coq_bool(m["field"]), coq_bool(m["param"]), coq_bool(m["kw"]),
-        coq_dflt(m["def"]), "None" if m["anc"] is None else "(Some %s)" % coq_bfield(m["anc"]),
-        coq_bool(m["own"]), coq_ns(m["ns"]), "None" if m["df"] is None else "(Some %s)" % coq_bfield(m["df"]),
-        coq_bool(m["nullty"]), coq_bool(m["ident"]),
-        "None" if not m.get("alias") else "(Some %s)" % coq_str(m["alias"]), coq_bool(m.get("unull", False)))
+        coq_dflt(m["def"]), coq_bool(m["own"]), coq_ns(m["ns"]), "None" if m["df"] is None else "(Some %s)" % coq_bfield(m["df"]),
+        coq_bool(m["nullty"]), coq_bool(m["ident"]), coq_bool(m.get("unull", False)))
 
 
 def coq_lay(members, sigpos, sigkw):
     nba = any(m.get("nba") for m in members)
-    return ("{| ly_L := [%s];\n     ly_kinds := [%s]; ly_nba := %s; ly_sigpos := [%s]; ly_sigkw := [%s] |}" % (
-        ";\n       ".join(coq_member(m) for m in members),
+    def osrc(x):
+        return "None" if x is None else "(Some %s)" % coq_str(x)
+    asrc = "; ".join("(%s, asr %s [%s] %s %s)" % (coq_str(m["name"]), osrc(m["asrc"][0]),
+                                                  "; ".join(coq_str(a) for a in m["asrc"][1]), coq_bool(m["asrc"][2]),
+                                                  osrc(m["asrc"][3]))
+                     for m in members if m.get("asrc") and (m["asrc"][0] is not None or m["asrc"][1] or m["asrc"][3] is not None
+                                                            or m["asrc"][2]))
+    tables = members[0]["anc_tables"] if members else []
+    anc = "; ".join("[%s]" % "; ".join("(%s, %s)" % (coq_str(n), coq_bfield(b)) for n, b in t) for t in tables)
+    return ("{| ly_L := [%s];\n     ly_asrc := [%s];\n     ly_anc := [%s];\n     ly_kinds := [%s]; ly_nba := %s; ly_sigpos := [%s]; ly_sigkw := [%s] |}" % (
+        ";\n       ".join(coq_member(m) for m in members), asrc, anc,
         "; ".join("(%s, %s)" % (coq_str(m["name"]), m["conv"]) for m in members if m["kind"] == "normal"),
         coq_bool(nba), "; ".join(coq_str(n) for n in sigpos), "; ".join(coq_str(n) for n in sigkw)))
 
@@ -788,12 +908,22 @@ def coq_inp(d):
 # the oracle: the property itself, computed from the truth about the class (not from the model)
 # ---------------------------------------------------------------------------
 
-def pyconv(m, v):
+class Rejected(Exception):
+    """the documented conversion of the field type does not accept the value"""
+
+
+def pyconv(m, v, cls=None):
     if m["ident"]:
         return v
     if v is None and (m["nullty"] or m["unull"] or m["def"] == ("val", None)):
         return None
-    return TYPES[m["type"]][1](v)
+    try:
+        r = TYPES[m["type"]][1](v)
+        if isinstance(r, tuple) and len(r) == 2 and r[0] == "Color":
+            r = sys.modules[cls.__module__].Color(r[1])
+        return r
+    except Exception as e:  # noqa: BLE001 - whatever the conversion raises, the library must say InvalidFieldValue
+        raise Rejected("%s: %s" % (type(e).__name__, e)) from None
 
 
 def same_value(a, b):
@@ -803,17 +933,31 @@ def same_value(a, b):
 def oracle(cls, members, d, outcome):
     """None if the property holds on this input, else (what, culprit member name or None)"""
     required = [m for m in members if m["kind"] == "normal" and m["field"] and m["param"] and m["def"] == ("none",)]
-    absent = [m["name"] for m in required if py_rd(m, d) is ABSENT]
-    if absent:
-        if outcome[0] == "missing" and outcome[1] == absent[0]:
-            return None
-        return ("required key %r absent: expected MissingField(%r), observed %s" % (absent[0], absent[0], show(outcome)),
-                outcome[1] if outcome[0] == "missing" else culprit_of(outcome))
+    # the first field in declaration order that must make from_dict fail: required key absent, or present value
+    # rejected by the conversion
+    for m in members:
+        if not (m["kind"] == "normal" and m["field"] and m["param"]):
+            continue
+        v = py_rd(m, d)
+        if v is ABSENT:
+            if m["def"] == ("none",):
+                if outcome[0] == "missing" and outcome[1] == m["name"]:
+                    return None
+                return ("required key %r absent: expected MissingField(%r), observed %s"
+                        % (m["name"], m["name"], show(outcome)), culprit_of(outcome))
+            continue
+        try:
+            pyconv(m, v, cls)
+        except Rejected as e:
+            if outcome[0] == "invalid" and outcome[1] == m["name"]:
+                return None
+            return ("field %s: value %r is rejected by its conversion (%s): expected InvalidFieldValue(%r), observed %s"
+                    % (m["name"], v, e, m["name"], show(outcome)), culprit_of(outcome) or m["name"])
     if outcome[0] != "ok":
         return ("all required keys present: expected an instance, observed %s" % show(outcome), culprit_of(outcome))
     _, r1, r2 = outcome
     # a reference instance made by calling the constructor directly with the required arguments only
-    base = cls(**{m["name"]: pyconv(m, py_rd(m, d)) for m in required})
+    base = cls(**{m["name"]: pyconv(m, py_rd(m, d), cls) for m in required})
     made = []
     for r in (r1, r2):
         for m in members:
@@ -821,7 +965,7 @@ def oracle(cls, members, d, outcome):
             bv = getattr(base, m["name"], UNSET)
             if m["kind"] == "normal" and m["field"] and m["param"]:
                 if py_rd(m, d) is not ABSENT:
-                    exp = pyconv(m, py_rd(m, d))
+                    exp = pyconv(m, py_rd(m, d), cls)
                     if not same_value(v, exp):
                         return ("field %s: key present with %r, expected %r, observed %r" % (m["name"], py_rd(m, d), exp, v),
                                 m["name"])
@@ -864,7 +1008,7 @@ def region_of(dflt):
 
 
 def culprit_of(outcome):
-    if outcome[0] == "missing":
+    if outcome[0] in ("missing", "invalid"):
         return outcome[1]
     if outcome[0] == "typeerror":
         import re
@@ -884,10 +1028,6 @@ def show(outcome):
 def signature_of(prog, entry, timing, members, culprit, outcome):
     m = next((x for x in members if x["name"] == culprit), None)
     sig = {"kind": "other", "entry": entry, "outcome": outcome[0]}
-    if outcome[0] == "other" and outcome[1].startswith("NameError: name '") \
-            and outcome[1].split("'")[1] in _PEP695.values():
-        sig["kind"] = "pep695-alias-name-unbound"
-        return sig
     if m is not None and m["from_plain_base"]:
         sig["kind"] = "non-dataclass-base-annotation"
     elif m is not None and m["inherits_class_default"] and timing == "pre" and outcome[0] == "missing":
@@ -946,26 +1086,40 @@ def run(ctx: vlib.Ctx):
         "allow_deserialization_not_by_alias, the key universe then holds alias keys and field names; "
         "for each entry point (from_dict, BasicDecoder) every subset of the member names as input keys, one random "
         "well-typed value assignment per subset; distinct = (layout shape, entry timing, key subset)")
-    ctx.theorems("props/C07_bind.vo", [
-        "C07_binding_partial", "C07_binding_post", "C07_binding", "C07_missing", "C07_null_wins",
+    br = ctx.theorems("props/C07_bind.vo", [
+        "C07_binding_partial", "C07_binding_post", "C07_binding", "C07_error", "C07_null_wins",
+        "C07_keys_are_code", "C07_first_key_wins",
         "C07_positional_prefix", "C07_noninit_unread", "C07_sticky_irrelevant", "C07_factory_fresh",
-        "C07_binding_refuted", "C07_noninit_refuted_plain_base"])
+        "C07_binding_refuted", "C07_noninit_refuted_plain_base"], kernels=["K4"])
+    if br.ok and not ctx.quick():
+        rc, out, _ = vlib.run(["timeout", "900", "coqchk", "-silent", "-o"] + vlib.COQ_FLAGS[:9] + ["VerifProps.C07_bind"],
+                              cwd=vlib.COQ, timeout=930)
+        tail = out[out.find("CONTEXT SUMMARY"):] if "CONTEXT SUMMARY" in out else out[-800:]
+        axioms = tail[tail.find("* Axioms:"):].split("*")[1].strip() if "* Axioms:" in tail else "?"
+        ok = rc == 0 and axioms.replace("Axioms:", "").strip() == "<none>"
+        ctx.obligation("coqchk -o VerifProps.C07_bind (no axioms)", ok, tail[-600:])
+        ctx.trusted.append("coqchk -o on VerifProps.C07_bind: " + " ".join(axioms.split()))
+        if not ok:
+            ctx.not_shown("coqchk VerifProps.C07_bind", out[-1200:])
     ctx.trusted += [
         "Bind.bind/step/walk: model of CPython dataclass __init__ binding, default materialisation and factory call "
         "order (compared with the real classes on every run, incl. inspect.signature)",
-        "harness/props/c07.py analyse(): extraction of the class facts the builder reads (cls.__dict__, "
-        "__dataclass_fields__ of the MRO, namespace snapshot before @dataclass) and of the truth (signature, fields)",
-        "conversions int()/float()/str()/list comprehension on the generated value domain (BindCases.conv_k)",
+        "harness/props/c07.py analyse(): extraction of the class facts the builder reads (cls.__dict__, the "
+        "__dataclass_fields__ tables of the dataclass ancestors in cls.__mro__[-1:0:-1] order, namespace snapshot "
+        "before @dataclass, Field.metadata alias / Annotated Alias annotations / Config.aliases entry) and of the "
+        "truth (signature, fields); which ancestor Field counts and which alias source wins is computed in Coq "
+        "(BindCases.anc_of, K4.get_field_alias translated from /repo)",
+        "conversions int()/float()/str()/bool()/list and tuple comprehension/Decimal()/timedelta(seconds=)/IntEnum() "
+        "incl. the inputs they reject, on the generated value domain (BindCases.conv_k; text never parses as a number)",
     ]
     ctx.assumptions += [
         "layout_ok: member names unique, Python accepts the parameter order, InitVar members have a plain default "
         "(mashumaro never supplies InitVars; a required InitVar makes every from_dict raise TypeError)",
-        "inputs are well typed for the field (null only for nullable fields; a null for a non-nullable int/float/list "
-        "field is probed by the python oracle only: it must raise InvalidFieldValue); aliases, hooks, discriminators, "
+        "about 5% of the present values are ill typed for the field (null for a non-nullable field, text for a number, "
+        "a scalar for a list, an unknown enum value ...): the model, the reference and the oracle all demand "
+        "InvalidFieldValue for the first such field; text never parses as a number; hooks, discriminators, "
         "forbid_extra_keys and dialects are other properties; how an alias is resolved is C09 (taken as a fact here), "
         "which key is then read and that a key holding null is present is modelled (Bind.rd)",
-        "fields typed by a PEP 695 alias always have a default in the generated programs (a required one hits the known "
-        "finding C07/pep695-alias-name-unbound, which is probed separately in every run)",
     ]
     nprog = ctx.budget(32, 300)
     nmax = ctx.budget(8, 10)
@@ -976,7 +1130,6 @@ def run(ctx: vlib.Ctx):
     oracle_bad: set[int] = set()
     todo = spectrum_programs(ctx.rng)
     ctx.coverage["spectrum_programs"] = len(todo)
-    todo.append(pep695_probe())
     for pi in range(nprog + len(todo)):
         prog = todo[pi] if pi < len(todo) else make_program(ctx.rng, nmax)
         src = render(prog)
@@ -991,7 +1144,15 @@ def run(ctx: vlib.Ctx):
         spec = {"types": st, "aliases": prog.get("aliases", {}), "nba": bool(prog.get("nba"))}
         info = {"prog": prog, "src": src, "mod": mod, "fails": 0, "spec": spec}
         progs.append(info)
-        for entry, fn, timing in entries_of(prog, mod):
+        try:
+            entries = entries_of(prog, mod)
+        except Exception as e:  # noqa: BLE001 - the codec could not be compiled for classes Python accepts
+            ctx.fail("compiling the decoder fails: %s: %s" % (type(e).__name__, e),
+                     {"source": src, "spec": spec, "entry": "compile", "input": None,
+                      "observed": "%s: %s" % (type(e).__name__, e), "expected": "a decoder"},
+                     {"kind": "decoder-compilation", "exc": type(e).__name__})
+            continue
+        for entry, fn, timing in entries:
             members, sigpos, sigkw = analyse(mod, st, timing, prog.get("aliases"), prog.get("nba"))
             li = len(lays)
             lays.append(coq_lay(members, sigpos, sigkw))
@@ -1006,9 +1167,10 @@ def run(ctx: vlib.Ctx):
                           ("kw_only" if m["kw"] else "positional") + "/" + m["def"][0]))
             for m in members:
                 if m["kind"] == "normal" and m["name"] in st:
+                    ctx.hist("base_types", base_of(m["type"]))
                     ctx.hist("type_spelling", SPELLING_CLASS[m["type"]] + ("/pass_through" if m["pass"] else ""))
                     if m.get("alias"):
-                        ctx.hist("aliased_fields", "%s/%s" % (prog["aliases"][m["name"]][0],
+                        ctx.hist("aliased_fields", "%s/%s" % ("+".join(sorted(k for k, _ in prog["aliases"][m["name"]])),
                                                               "not_by_alias" if m["nba"] else "alias-only"))
                 if m["kind"] == "normal" and m["field"] and m["param"]:
                     ctx.hist("default_spectrum", "%s/%s/%s" % (
@@ -1022,6 +1184,7 @@ def run(ctx: vlib.Ctx):
                         ctx.hist("explicit_null_against", "%s/%s" % (
                             region_of(m["def"]), "identity" if m["ident"] else "converting"))
                 outcome = run_real(fn, d, members)
+                ctx.hist("outcomes", outcome[0])
                 ctx.count((shape, timing, mask))
                 # correspondence case
                 if outcome[0] == "ok":
@@ -1032,6 +1195,8 @@ def run(ctx: vlib.Ctx):
                         rout = "ROk %s [%s]" % (coq_attrs(a1), "; ".join("%d%%nat" % x for x in l2))
                 elif outcome[0] == "missing":
                     rout = "RMissing %s" % coq_str(outcome[1])
+                elif outcome[0] == "invalid":
+                    rout = "RInvalid %s" % coq_str(outcome[1])
                 elif outcome[0] == "typeerror":
                     rout = "RTypeError"
                 else:
@@ -1052,38 +1217,6 @@ def run(ctx: vlib.Ctx):
                                  {"source": src, "spec": spec, "entry": entry, "input": d, "observed": show(outcome),
                                   "expected": what},
                                  sig)
-            # oracle only (conversion failures are outside the Coq model): an explicit null for a field that is
-            # NOT nullable (neither by type nor by a None default) and whose conversion rejects None must raise
-            # InvalidFieldValue for that field - never be swallowed into None or the default, whatever the default is
-            from mashumaro.exceptions import InvalidFieldValue
-            required_ok = {key_of(m): nonnull_input(ctx.rng, m) for m in members
-                           if m["kind"] == "normal" and m["field"] and m["param"] and m["def"] == ("none",)
-                           and m["name"] in st}
-            for m in members:
-                if not (m["kind"] == "normal" and m["field"] and m["param"] and m["name"] in st and not m["ident"]
-                        and not m["nullty"] and not m["unull"] and m["def"] != ("val", None) and not m["inherits_class_default"]
-                        and base_of(m["type"]) in ("int", "float", "List[int]")):
-                    continue
-                if any(x["from_plain_base"] or x["inherits_class_default"] for x in members):
-                    break                       # programs of the known findings fail earlier for their own reasons
-                d = dict(required_ok)
-                d[key_of(m)] = None
-                ctx.count((shape, timing, "null-for-non-nullable", m["name"]))
-                ctx.hist("explicit_null_against", "%s/non-nullable" % region_of(m["def"]))
-                try:
-                    got = fn(dict(d))
-                    obs = "instance with %s=%r" % (m["name"], getattr(got, m["name"], "<unset>"))
-                except InvalidFieldValue as e:
-                    if e.field_name == m["name"]:
-                        continue
-                    obs = "InvalidFieldValue for %s" % e.field_name
-                except Exception as e:  # noqa: BLE001
-                    obs = "%s: %s" % (type(e).__name__, e)
-                ctx.fail("%s(%r): null for the non-nullable field %s (default %s): expected InvalidFieldValue(%r), observed %s"
-                         % (entry, d, m["name"], region_of(m["def"]), m["name"], obs),
-                         {"source": src, "spec": spec, "entry": entry, "input": d, "observed": obs,
-                          "expected": "InvalidFieldValue(%r)" % m["name"], "null_for_non_nullable": m["name"]},
-                         {"kind": "null-for-non-nullable", "entry": entry})
             if len(ctx.coverage["samples"]) < 4:
                 ctx.sample({"classes": src[len(PRELUDE):], "entry": entry, "timing": timing,
                             "signature": [sigpos, sigkw]})
@@ -1129,7 +1262,7 @@ def coq_two_idx(name, lays, cases, shard):
     """one Coq pass over the cases: (indices where case_ok fails, indices where ref_agrees fails, log);
     (None, None, log) when Coq failed"""
     import re
-    br = vlib.coq_make(["theories/Wire.vo", "theories/PyK.vo", "theories/BindCases.vo"])
+    br = vlib.coq_make(["theories/Wire.vo", "theories/PyK.vo", "gen/K4.vo", "theories/BindCases.vo"])
     if not br.ok:
         return None, None, "model does not build: " + (br.error or "")
     files = []
@@ -1208,13 +1341,21 @@ def replay(rep: dict) -> int:
         return 0
     from mashumaro.codecs.basic import BasicDecoder
     cls = mod.TARGET
-    fn = cls.from_dict if rep["entry"] == "from_dict" else BasicDecoder(cls).decode
+    try:
+        fn = cls.from_dict if rep["entry"] == "from_dict" else BasicDecoder(cls).decode
+    except Exception as e:  # noqa: BLE001
+        print("compiling the decoder:", type(e).__name__, e)
+        print("REPRODUCED" if rep.get("entry") == "compile" else "decoder does not compile")
+        return 1 if rep.get("entry") == "compile" else 2
+    if rep.get("entry") == "compile":
+        print("not reproduced")
+        return 0
     # truth from introspection; declared types / aliases come with the replay file, else from the annotations
     spec = rep.get("spec")
     aliases, nba = {}, False
     if spec:
         st = {k: tuple(v) for k, v in spec["types"].items()}
-        aliases = {k: tuple(v) for k, v in spec["aliases"].items()}
+        aliases = {k: [tuple(x) for x in v] for k, v in spec["aliases"].items()}
         nba = spec["nba"]
     else:
         st = {}
@@ -1235,20 +1376,6 @@ def replay(rep: dict) -> int:
                     break
     members, _, _ = analyse(mod, st, "post", aliases, nba)
     d = rep["input"]
-    if rep.get("null_for_non_nullable"):
-        from mashumaro.exceptions import InvalidFieldValue
-        try:
-            got = fn(dict(d))
-            print("entry", rep["entry"], "input", d, "-> instance", got)
-        except InvalidFieldValue as e:
-            print("entry", rep["entry"], "input", d, "-> InvalidFieldValue", e.field_name)
-            if e.field_name == rep["null_for_non_nullable"]:
-                print("not reproduced")
-                return 0
-        except Exception as e:  # noqa: BLE001
-            print("entry", rep["entry"], "input", d, "->", type(e).__name__, e)
-        print("REPRODUCED")
-        return 1
     outcome = run_real(fn, d, members)
     bad = oracle(cls, members, d, outcome)
     print("entry", rep["entry"], "input", d, "->", show(outcome))
